@@ -203,7 +203,9 @@ static int vf_load_replay(const char* file) {
 /* ================================================================================================
  * reference model: table of live blocks + pattern oracle
  * ============================================================================================== */
+#ifndef VF_MAX_LIVE
 #define VF_MAX_LIVE 4096
+#endif
 typedef struct vf_blk_s {
   uint8_t* p;
   size_t   req;          /* requested size */
